@@ -55,6 +55,7 @@ class Machine:
         self.passes_done = 0
         self.s_ef = None
         self.failures = []
+        self._code_count = {}
         self.index = -1
         # counters
         self.fwd_steps = 0
@@ -72,6 +73,11 @@ class Machine:
 
     # ------------------------------------------------------------------
     def _fail(self, props, code, msg, action):
+        # at most 50 records per failure code and run: a persistent condition
+        # (e.g. an overrun budget) would otherwise be recorded at every step
+        self._code_count[code] = self._code_count.get(code, 0) + 1
+        if self._code_count[code] > 50:
+            return
         self.failures.append(Failure(tuple(props), code, msg, self.index,
                                      repr(action)))
 
